@@ -63,11 +63,28 @@ MixedSize(s) ==
               <<0, FALSE, 0>>, [i \in 1..Len(s) |-> i])
   IN st[1] + HighRunSize(st[3])
 \* upper bound on the codewords needed, from the closed forms (-1: no closed form applies)
+\* one scheme for the whole message (only for messages whose characters are all single values / native in that scheme):
+\* latch, whole triples, and - unless the data ends on a triple boundary - unlatch and the last one or two characters in
+\* ASCII.  Legal in every symbol with at least that many codewords (a full symbol needs no unlatch, a larger one has room
+\* for it in the padding area).  EDIFACT: latch, the characters and the unlatch value, packed 4 values to 3 codewords.
+C40Single(b)  == b = 32 \/ b \in 48..57 \/ b \in 65..90
+TextSingle(b) == b = 32 \/ b \in 48..57 \/ b \in 97..122
+X12Native(b)  == b \in {13, 42, 62, 32} \/ b \in 48..57 \/ b \in 65..90
+AllBytes(s, P(_)) == \A i \in 1..Len(s) : P(s[i])
+TripleSize(s) == LET n == Len(s)  r == n % 3 IN
+                 1 + 2 * (n \div 3) + (IF r = 0 THEN 0 ELSE 1 + AsciiSize(SubSeq(s, n - r + 1, n)))
+EdifactSize(s) == LET n == Len(s) IN 1 + 3 * ((n + 1) \div 4) + ((n + 1) % 4)
+TripleOK == "ascii" \in En \/ Len(Body) % 3 = 0
+\* upper bound on the codewords needed, from the closed forms (-1: no closed form applies)
 UpperBound ==
-  LET a == IF "ascii" \in En THEN (IF "b256" \in En THEN MixedSize(Body) ELSE AsciiSize(Body)) ELSE -1
-      b == IF "b256" \in En /\ Len(Body) <= 1555 THEN B256Size(Body) ELSE -1
-      m == IF a < 0 THEN b ELSE IF b < 0 THEN a ELSE IF a < b THEN a ELSE b
-  IN IF m < 0 THEN -1 ELSE PrefixLen + m
+  LET cands ==
+        (IF "ascii" \in En THEN {IF "b256" \in En THEN MixedSize(Body) ELSE AsciiSize(Body)} ELSE {})
+        \cup (IF "b256" \in En /\ Len(Body) <= 1555 THEN {B256Size(Body)} ELSE {})
+        \cup (IF Len(Body) > 0 /\ "c40" \in En /\ TripleOK /\ AllBytes(Body, C40Single) THEN {TripleSize(Body)} ELSE {})
+        \cup (IF Len(Body) > 0 /\ "text" \in En /\ TripleOK /\ AllBytes(Body, TextSingle) THEN {TripleSize(Body)} ELSE {})
+        \cup (IF Len(Body) > 0 /\ "x12" \in En /\ TripleOK /\ AllBytes(Body, X12Native) THEN {TripleSize(Body)} ELSE {})
+        \cup (IF Len(Body) > 0 /\ "edifact" \in En /\ AllBytes(Body, LAMBDA b : b \in 32..94) THEN {EdifactSize(Body)} ELSE {})
+  IN IF cands = {} THEN -1 ELSE PrefixLen + (CHOOSE m \in cands : \A o \in cands : m <= o)
 
 -----------------------------------------------------------------------------
 Init == /\ v_c \in 1..Len(Cases)
@@ -83,7 +100,7 @@ ShapeFails ==
    ELSE (IF s \notin ListSet THEN {"C02.sizeNotInList"} ELSE {})
         \cup (IF Len(Data) # Cap(s) THEN {"C02.dataLen"} ELSE {})
         \cup (IF EncRes.necc # NumEc(s) THEN {"C02.eccLen"} ELSE {})
-        \* C10 (closed-form part): never larger than plain ASCII / plain Base256 would need,
+        \* C10 (closed-form part): never larger than the closed-form encodings (ASCII with Base256 runs, one scheme throughout) need,
         \* and among equal capacities the first of the list's own order
         \cup (IF UpperBound >= 0 /\ MinCapFor(ListSet, UpperBound) >= 0 /\ Cap(s) > MinCapFor(ListSet, UpperBound)
               THEN {"C10.largerThanPlain"} ELSE {})
